@@ -398,7 +398,7 @@ class Run:
                     if k > i:
                         self.flags.add('paren-search-crossed-newline')
             if nx is None or nx[0] != '(' or nx[1] != 'punct':
-                if nx is not None and nx[1] == 'ident' and k >= 0 and t[4] is None:
+                if nx is not None and nx[1] == 'ident' and k >= 0:
                     m2 = macros.get(nx[0])
                     if m2 is not None and m2.func:
                         self.flags.add('uninvoked-funclike-name-followed-by-funclike-name')
